@@ -227,6 +227,7 @@ def validate(run, case, model, lazy=True, cache=True, tables_from='model') -> Va
         v.ibu = ' ibu' in r
         v.bound = ' bound' in r
         v.pull = ' pull' in r
+        v.push = ' push' in r
         if r.startswith('ok'):
             if v.convex and not v.certified:
                 v.disc.append(dict(kind='uncertified', at=-1, detail='the static tables of this convex scenario do not pass check_static: the premise static_ok of the scheduler theorems is not established'))
@@ -307,6 +308,13 @@ def validate(run, case, model, lazy=True, cache=True, tables_from='model') -> Va
                 for g in r.split(' ', 1)[1].split(','):
                     kind = {'input': 'guard_input', 'lazy': 'guard_lazy', 'async': 'guard_async'}.get(g.split(':')[0], 'notwaiting')
                     v.disc.append(dict(kind=kind, at=at, detail=f'{sid} began {tiers} but the model still waits: {g}'))
+                    if kind == 'guard_input':
+                        # the provider reaches this simulator through a connection with async_requests: its requests
+                        # during the step at t are answered from the provider's step at t (C16)
+                        rev = {i_: s_ for s_, i_ in idx.items()}
+                        prov = rev.get(int(g.split(':')[1]))
+                        if prov is not None and any(e.get('async') and f"S{e['a']}" == prov and f"S{e['b']}" == sid for e in case['edges']):
+                            v.disc.append(dict(kind='guard_input_async', at=at, detail=f'{sid} began {tiers} before its async-requests partner {prov} had passed that time'))
                 break
             elif r.startswith('timemismatch'):
                 v.disc.append(dict(kind='timemismatch', at=at, detail=f'{sid} began {tiers}; {r}')); break
@@ -336,7 +344,7 @@ def validate(run, case, model, lazy=True, cache=True, tables_from='model') -> Va
         elif k == 'DATA':
             _, sid, ot, data, has_time = l
             ps = [ATTR[a] for a in sorted(data)]
-            pairs = ' '.join(f"{ATTR[a]} {tok(val)}" for a, val in data.items())
+            pairs = ' '.join(f"{ATTR[a]} {0 if val is None else tok(val)}" for a, val in data.items())     # token 0: the value None
             if not isinstance(ot, int):
                 break
             r = send(f"DATA {idx[sid]} {ot} {len(ps)} " + ' '.join(map(str, ps)) + ' ' + pairs, at)
